@@ -446,7 +446,12 @@ fn compare_renumbered_from(table: &CosetTable, start: usize) -> isize {
         assert!(row < n2o.len(), "coset table is not transitive");
 
         for g in table.all_gens() {
-            let oval = table.get(row, g).unwrap_or(n);
+            // an entry that is still open can later receive any value: the
+            // comparison cannot be decided beyond this point
+            let oval = match table.get(row, g) {
+                Some(val) => val,
+                None => return 0,
+            };
 
             let nval = if let Some(t) = table.get(n2o[&row], g) {
                 if !o2n.contains_key(&t) {
